@@ -31,6 +31,15 @@ Proof. exact scan_raw_ok. Qed.
 Theorem C07_covered_once : forall (score : dna -> N) sq k p l, scan_ok score sq k p l -> covered_once sq k l.
 Proof. exact scan_ok_covered. Qed.
 
+(* simple_scan (deprecated wrapper, asserts P::k() <= 8): the same intervals under the permutation score *)
+Theorem C07_simple_scan_spec : forall sq k p perm rcmode,
+  1 <= p -> p <= 8 -> p <= k -> k <= length sq -> (N.of_nat (length sq) < 2 ^ 32)%N -> (N.of_nat (2 * k - p) < 2 ^ 16)%N ->
+  exists ivs, scan (perm_score perm rcmode) sq k p = Some ivs /\
+    scan_ok (perm_score perm rcmode) sq k p (map iv_nat ivs) /\
+    simple_scan sq k p perm rcmode =
+      Some (map (fun x => ((bucket_of (iv_minimizer x) mod 2 ^ 16)%N, iv_start x, iv_len x)) ivs).
+Proof. exact simple_scan_spec. Qed.
+
 (* The boolean checker run by the correspondence driver on the intervals the IMPLEMENTATION reports is sound:
    given the true score of every p-mer position, acceptance implies clauses (a)-(f). *)
 Theorem C07_check_scan_sound : forall (score : dna -> N) sq k p scs l,
@@ -58,5 +67,6 @@ Print Assumptions C07_scan_spec.
 Print Assumptions C07_scan_raw_ok.
 Print Assumptions C07_covered_once.
 Print Assumptions C07_check_scan_sound.
+Print Assumptions C07_simple_scan_spec.
 Print Assumptions C07_scan_len_wrap_refuted.
 Print Assumptions C07_nonvacuous_lex.
